@@ -900,6 +900,14 @@ def check_C03(work):
                 api = rng.choice(["put", "set", "get", "put_tf", "set_tf", "ensure", "touch"])
                 hist.append(op(api, rng.choice(keys), hash="1", sec="2"))
             jobs.append(seq_job("C03-rnd-%s-%d" % (wname, r), "%s:history" % wname, c, hist, draw=ALWAYS, shard_script=[1, 0] * 10))
+    # the same histories through a cache built from a builder that has already produced another cache (`take()` leaves the builder
+    # in its default state: auto_sync on)
+    for wname, wr in (("stack", plain("W", 3)), ("stacksh", sharded("W", 2, 4))):
+        c = dict(stack(wr, [plain("R1")], "none"), builder="reused")
+        hist = [op("put", "a", hash="1", sec="2"), op("set", "b", hash="1", sec="2"), op("put_tf", "c", hash="1", sec="2"),
+                op("set_tf", "a", hash="1", sec="2"), op("ensure", "d", hash="1", sec="2"), op("gou", "e", judge="replace", hash="1", sec="2"),
+                op("get", "a", hash="1", sec="2")]
+        jobs.append(seq_job("C03-reused-%s" % wname, "%s:reused-builder" % wname, c, hist, draw=ALWAYS, shard_script=[1, 0] * 10))
     mons = ["DurableFirst", "ReadOnlyFirst", "Immutable", "Mode0444", "DirValid"]
 
     def key_of(job, mon, ev, evs):
@@ -1712,6 +1720,27 @@ def check_C06(work):
             jobs.append(conc_job("C06-%s-%d-nomaint" % (fr[0], i), fam + ":nomaint", big, progs, dict(ex, runs=Q(120, 2000)), draw=NEVER))
     mons = ["SoloCompletes", "NoErr", "Bounded", "NoLocks"]
     st = trace_check(work, out, jobs, mons, tag="c06")
+    # a participant never waits for a resource that only others can release either: with one class of calls failing PERSISTENTLY
+    # (descriptor table full, I/O error on every attempt, ...) every operation still comes back (with an error, or a miss) within a
+    # bounded number of calls -- no retry loop
+    pjobs = []
+    hk = dict(hash="1", sec="2")
+    for fname, cache in (("plain", plain("W", 4)), ("sharded", sharded("W", 2, 4)), ("stack", stack(plain("W", 4), [plain("R1")], "none"))):
+        world = [op("mkfile", path="@TOP@/R1/kr", key="kr", val="ro", chunks=1, w=0, mode=0o444, mt_ago=300.0, at_ago=420.0)] if fname == "stack" else []
+        pre = [op("set", "k1", "old1", **hk), op("set", "k2", "old2", **hk)]
+        prog = [op("get", "k1", **hk), op("touch", "k1", **hk), op("get", "absent", **hk), op("put", "k1", **hk), op("set", "k3", **hk), op("put", "k4", **hk)]
+        if fname == "stack":
+            prog += [op("ensure", "k1", **hk), op("ensure", "kr", **hk), op("ensure", "k9", **hk), op("put_tf", "k5", **hk)]
+        for call, errnos in (("open", ["EMFILE", "ENFILE", "EIO"]), ("stat", ["EIO"]), ("link", ["EIO", "EMLINK"]), ("rename", ["EIO"]),
+                             ("unlink", ["EIO"]), ("utimens", ["EIO"]), ("getdents", ["EIO"]), ("mkdir", ["EIO"]), ("chmod", ["EIO"])):
+            for er in errnos:
+                j = seq_job("C06-persist-%s-%s-%s" % (fname, call, er), "%s:persistent:%s:%s" % (fname, call, er), cache, prog, world=world, pre=pre,
+                            draw=ALWAYS, shard_script=[1, 0] * 10, fault_all={"call": call, "errno": er})
+                j["op_call_limit"] = 600
+                pjobs.append(j)
+    st2 = trace_check(work, out, pjobs, ["SoloCompletes", "NoLocks", "DirValid"], tag="c06p")
+    st = merge_stats([st, st2])
+    jobs += pjobs
     design = design_runs(work, out, Q(["MCcrashq"], ["MCcrashq", "MCcrash", "MCplain2"]))
     cov = coverage_mc(st, design, "solo-from-prefix: for every scheduler step j of seeded base schedules of 2 participants (maintenance on every write, and none), "
                       "each participant in turn runs alone until its current operation returns while the other stays frozen at its current system call; "
